@@ -201,6 +201,41 @@ CLAIMS = {
                   "simulated directors",
         design="9/C14",
     ),
+    "C06": dict(
+        text="Lean theorems on the kernel model and on models of the cleanup code: only rows in state VOLATILE, BUILT or "
+             "OUTDATED are ever queued for deletion (beforeDelete, deletePass, deleteDetachedBase, deleteDetached, "
+             "revertOptional, with their `for` loops), a static (CONFIRMED/MISSING/UNCONFIRMED) or undeclared row never; "
+             "detach and setCreator leave file state, hash, key and queue untouched; remove_deletable_files removes a queued "
+             "regular output only when its refreshed hash equals the recorded one, volatile paths whatever they contain, "
+             "and directories only when empty (model of _prune_empty_dirs); the guard chain of Builder.finalize runs the "
+             "cleanup exactly for return code & ~WARNING = 0, no targets, cleaning enabled (regenerated truth table over all "
+             "64 return codes and the ast of every call site of the cleanup entry points); stepup clean selects exactly the "
+             "outputs under its arguments and skips modified ones unless --unsafe (regenerated SELECT_OUTPUTS truth table).",
+        note=BASE_NOTE + "That the rows in state VOLATILE/BUILT/OUTDATED are paths some step declared as output is decided "
+             "by the oracle on simulated histories (plan edits, user modifications, stray files, targets, --no-clean, "
+             "interleaved `stepup clean` runs; the scratch tree is snapshotted around every removal pass). File system "
+             "model: regular files and directories only. Changes invisible to FileHash.refreshed are outside (C13).",
+        technique="Lean 4 proof over the kernel cleanup functions and models of finalize/clean + regenerated guard and SQL "
+                  "truth tables + correspondence on real removal passes + ownership oracle on simulated histories",
+        design="9/C06",
+    ),
+    "C07": dict(
+        text="Lean theorems on the kernel model of Trellis.delete_detached / Workflow.delete_detached / "
+             "revert_optional_steps: the loop terminates (it always leaves through its break); the result is a fixpoint "
+             "(no deletable detached leaf is left); full characterisation of the survivors under unique keys and existing "
+             "edge endpoints (a detached node survives iff it is held, through creator-to-product and source-to-sink edges, "
+             "by a surviving node); exactly the deleted VOLATILE/BUILT/OUTDATED rows are queued, with their directories; "
+             "creators that lost a product have no hash; a negation theorem for detached cycles (F5 witness evaluated on "
+             "the model). Correspondence: the cleanup pass of whole simulated builds against the model (surviving nodes, "
+             "states, queue).",
+        note=BASE_NOTE + "That plan edits leave exactly the dropped steps detached and that unneeded optional steps carry "
+             "_implied_need = OPTIONAL at finalize is decided by the oracle on simulated histories (C11 for the cache). "
+             "Known findings: detached-cycle-survives (F5), after-kill:orphan-file-forgotten (F6), "
+             "stale-volatile-file-after-redeclaration-as-output, orphan-held-indirectly-through-detached-step.",
+        technique="Lean 4 proof (termination, fixpoint and survivor characterisation of the cleanup loop) + correspondence "
+                  "on real cleanup passes + orphan oracle on simulated edit histories",
+        design="9/C07",
+    ),
 }
 
 PENDING_REASON = "machinery for this property is not built yet in this round (see DESIGN.md section 12 for the order)"
